@@ -111,6 +111,24 @@ BUILTINS = {'dict', 'range', 'enumerate', 'str', 'int', 'len', 'abs', 'isinstanc
 PURE_MODULES = {'bisect', 'math', 'operator', 'string'}
 
 
+def _catches(htype, kind: str) -> bool:
+    """Does `except <htype>` catch an exception of class name `kind` (builtin exception hierarchy; unknown classes by name)?"""
+    import builtins
+    if htype is None:
+        return True
+    names = [ast.unparse(x).split('.')[-1] for x in (htype.elts if isinstance(htype, ast.Tuple) else [htype])]
+    k = getattr(builtins, kind.split('.')[-1], None)
+    for n in names:
+        if n == kind.split('.')[-1]:
+            return True
+        b = getattr(builtins, n, None)
+        if isinstance(k, type) and isinstance(b, type) and issubclass(k, b):
+            return True
+        if not isinstance(k, type) and n in ('Exception', 'BaseException'):
+            return True
+    return False
+
+
 def _own_nodes(fn):
     """Nodes of a function body excluding nested function / class definitions and lambdas."""
     stack = list(fn.body)
@@ -453,6 +471,23 @@ class Folder:
                     f = st.exc.func if isinstance(st.exc, ast.Call) else st.exc
                     kind = ast.unparse(f)
                 raise FoldRaise(kind, ast.unparse(st)[:60])
+            elif isinstance(st, ast.Try) and self.allow_loops:
+                try:
+                    try:
+                        self._block(st.body, env, mod, ci)
+                    except FoldRaise as r_:
+                        for h in st.handlers:
+                            if _catches(h.type, r_.kind):
+                                if h.name:
+                                    env[h.name] = r_
+                                self._block(h.body, env, mod, ci)
+                                break
+                        else:
+                            raise
+                    else:
+                        self._block(st.orelse, env, mod, ci)
+                finally:
+                    self._block(st.finalbody, env, mod, ci)
             elif isinstance(st, ast.Assert):
                 if not self._truth(self._eval(st.test, env, mod, ci)):
                     raise FoldRaise('AssertionError', ast.unparse(st.test))
@@ -677,6 +712,16 @@ class Folder:
                 return a // b
             if isinstance(op, ast.Mod):
                 return a % b
+            if isinstance(op, ast.BitOr):
+                return a | b
+            if isinstance(op, ast.BitAnd):
+                return a & b
+            if isinstance(op, ast.BitXor):
+                return a ^ b
+            if isinstance(op, ast.Div):
+                return a / b
+            if isinstance(op, ast.Pow):
+                return a ** b
         except TypeError as e:
             raise FoldRaise('TypeError', str(e))
         except ZeroDivisionError as e:
